@@ -3,6 +3,8 @@ NEXT Next
 CONSTANTS
   AeadC = 1
   Starts = "boundary"
+  Menu = "full"
+  BnKind = "leaf"
   Emit = FALSE
   SetupSMenu <- NoSetups
   SetupRMenu <- NoSetups
